@@ -5,7 +5,9 @@ site is inserted before it (ordinals shift).  Identity is decided by, in this or
   1. the exact key, if the entry has no recorded snippet or the snippet still matches;
   2. the same kind/what and the same (whitespace-normalised) source snippet anywhere in the family;
   3. the exact key with a changed snippet (a rename inside the expression), only when the numbers of still unmatched
-     sites and entries of that kind/what in that function agree.
+     sites and entries of that kind/what in that function agree;
+  3b. any unused entry of the family with the same kind/what whose own key is gone, only when the numbers of still unmatched
+     sites and of such entries in the family agree (moved and renamed at once).
 An entry is used for at most one site."""
 import re
 from .facts import strip_generics
@@ -164,6 +166,21 @@ def match_sites(families, sites, entries, consolidate=False):
         if counts_s.get((fnpart, kw)) == counts_e.get((fnpart, kw)):
             out[k] = k
             used.add(k)
+    # pass 3b: moved *and* renamed (code extracted into a helper whose parameters have other names): within a family, when the number of
+    # still unmatched sites of a kind/what equals the number of unused entries of that kind/what whose own key is no longer produced
+    left = [(k, s) for k, s in sites if k not in out and "|" in k]
+    groups = {}
+    for k, s in left:
+        fnpart, kw, _ = kind_what(k)
+        groups.setdefault((families.root(fnpart), kw_class(kw)), []).append(k)
+    for (root, kwc), ks in sorted(groups.items()):
+        left_keys = {k for k, _ in left}
+        cands = sorted((ek for ek in by_root.get(root, []) if ek not in used and ek not in left_keys and kw_class(kind_what(ek)[1]) == kwc),
+                       key=lambda ek: (kind_what(ek)[0], kind_what(ek)[2]))
+        if cands and len(cands) == len(ks):
+            for k, ek in zip(sorted(ks, key=lambda kk: (kind_what(kk)[0], kind_what(kk)[2])), cands):
+                out[k] = ek
+                used.add(ek)
     if consolidate:
         # pass 4 (recorded findings only): sites of a kind/what that are still unmatched in a family while the family has at
         # least as many unmatched recorded entries of that kind/what — the code was consolidated or moved with edits
